@@ -152,11 +152,13 @@ class BaseProperty(base.BaseObject):
             warnings.warn(MSG_VALUE_DEPRECATION, category=DeprecationWarning, stacklevel=2)
             self.values = value
 
-        self.parent = parent
-
         # Cardinality should always be set after values have been added
         # since it is always tested against values when it is set.
         self.val_cardinality = val_cardinality
+
+        # Attach to the parent last: an invalid cardinality must not leave
+        # a half initialised Property in the parent.
+        self.parent = parent
 
         for err in validation.Validation(self).errors:
             if err.is_error:
